@@ -73,6 +73,24 @@ def run(ctx):
             return lines
         vlib.selftest_trace(ctx, "WritePathTrace.tla", "WritePathTrace.cfg", tr, swap)
         vlib.selftest_trace(ctx, "WritePathTrace.tla", "WritePathTrace.cfg", tr, drop)
+    # 3b. long behaviours in the same action alphabet (hundreds of acknowledged bulks with a size profile: one very large
+    # bulk, >200 very small ones, again; one or two index workers; restarts in between): the per-worker buffers that
+    # outlive a bulk and are re-sized from statistics over the last 200 bulks
+    nsoak = 6 if quick else 60
+    rc, outs, err = vlib.run_driver(drv, ["-soak", str(nsoak), "-seed", str(ctx.seed)], timeout=1800, ok_codes=(0, 2))
+    sk = next((o for o in outs if o.get("summary")), None)
+    if not sk and rc == 2 and ("panic:" in err or "fatal error:" in err):
+        # the store process (in-process here) died while ingesting / replaying acknowledged bulks
+        ctx.violation("writepath:soak:store-died", {"stderr": err[-3000:], "args": ["-soak", str(nsoak), "-seed", str(ctx.seed)]},
+                      what="the store died during a long history of acknowledged bulks: " + err[-300:])
+        sk = {}
+    elif not sk:
+        raise vlib.Infra("crash -soak produced no summary: " + err[-500:])
+    for m in outs:
+        if m.get("op") == "soak":
+            ctx.violation("writepath:soak:%s" % str(m.get("what")).split(": ", 2)[-1][:40], m,
+                          what="a long history of acknowledged bulks (WritePath.tla: AckedDurable / NoForeignBytes): " + str(m.get("what"))[:300])
+    ctx.cov["soak"] = {"histories": nsoak, "bulks": sk.get("bulks"), "check_points": sk.get("evals")}
     # 4. whole-store histories (several fractions, rotation, seals, retention, process deaths at hook points)
     sruns, sev = _store.histories(ctx, "writepath", runs=120 if quick else 2500, scenario_runs=0)
     ctx.cov["traces_validated_against_impl"] = summ["cases"] + runs + sruns
@@ -84,7 +102,7 @@ def run(ctx):
                        "and with the unsynced suffix kept / dropped / torn) followed by restart and further ingestion, one behaviour per Restart edge of the as-is "
                        "model; torn lengths are drawn per case from {1,32,33,34,len/2,len-1} bytes, bulk shapes from the seed; after every restart every acked "
                        "document is searched by its own and by the shared token and fetched byte-exact, unacked bulks must be all-or-nothing. traces: "
-                       "%d recorded runs of 24 bulks from 1..4 concurrent writers with real fsync. non-trivial = behaviours with >=1 crash" % runs)
+                       "%d recorded runs of 24 bulks from 1..4 concurrent writers with real fsync. non-trivial = behaviours with >=1 crash; plus %d long histories (about 500 bulks each, sizes 600/300/900 then >200 bulks of 1-2 documents, restarts in between) checked at every phase end" % (runs, nsoak))
     ctx.assumptions += ["a crash keeps the fsynced prefix of a file and an arbitrary prefix of what was written after it (no reordering inside a file)",
                         "crash images are produced by letting the real write path finish the bulk in flight and cutting the two files back",
                         "the byte-level crash images use a single active fraction; several fractions, rotation, sealing and retention are covered by the whole-store histories (process deaths at hook points, page cache kept) and by C08/C15", "the kernel honours fsync"]
